@@ -6,11 +6,14 @@ import (
 	"errors"
 	"fmt"
 	"math/big"
+	"reflect"
 	"sort"
 	"strings"
 	"sync"
 	"testing"
+	"time"
 
+	"github.com/ThreeDotsLabs/watermill/message"
 	"github.com/jackc/pgx/v5/pgconn"
 	"pgregory.net/rapid"
 
@@ -18,7 +21,9 @@ import (
 
 	ledger "github.com/formancehq/ledger/internal"
 	"github.com/formancehq/ledger/internal/api/bulking"
+	"github.com/formancehq/ledger/internal/bus"
 	ledgercontroller "github.com/formancehq/ledger/internal/controller/ledger"
+	"github.com/formancehq/ledger/pkg/events"
 	"github.com/formancehq/ledger/pkg/features"
 	"github.com/formancehq/ledger/verifharness/env"
 	"github.com/formancehq/ledger/verifharness/gen"
@@ -39,7 +44,26 @@ type recEvent struct {
 	Durable       bool
 	OpenTx        bool // the emitting request still had an open, uncommitted SQL transaction
 	Seq           int64
+	// what the real bus.LedgerListener handed to the message publisher for this call
+	Topic   string
+	Message map[string]any
 }
+
+// recPublisher is the message.Publisher behind the real bus.LedgerListener: it keeps the last message.
+type recPublisher struct {
+	topic   string
+	payload []byte
+	n       int
+}
+
+func (p *recPublisher) Publish(topic string, msgs ...*message.Message) error {
+	for _, m := range msgs {
+		p.topic, p.payload = topic, append([]byte(nil), m.Payload...)
+		p.n++
+	}
+	return nil
+}
+func (p *recPublisher) Close() error { return nil }
 
 type recListener struct {
 	mu     sync.Mutex
@@ -47,6 +71,27 @@ type recListener struct {
 	bucket map[string]string // ledger -> bucket
 	events []recEvent
 	openTx func() bool
+	pub    *recPublisher
+	bus    *bus.LedgerListener
+}
+
+// through sends the call through the real bus listener and returns what it published.
+func (r *recListener) through(call func(l *bus.LedgerListener)) (string, map[string]any) {
+	if r.bus == nil {
+		r.pub = &recPublisher{}
+		r.bus = bus.NewLedgerListener(r.pub)
+	}
+	before := r.pub.n
+	call(r.bus)
+	if r.pub.n != before+1 {
+		return fmt.Sprintf("(%d messages published)", r.pub.n-before), nil
+	}
+	doc, ok := decodeJSON(r.pub.payload)
+	if !ok {
+		return r.pub.topic, map[string]any{"undecodable": string(r.pub.payload)}
+	}
+	m, _ := doc.(map[string]any)
+	return r.pub.topic, m
 }
 
 func (r *recListener) committedLogs(ledgerName string) []map[string]pgsim.Value {
@@ -68,7 +113,8 @@ func (r *recListener) txCommitted(ledgerName string, id uint64, needReverted boo
 	return false
 }
 
-func (r *recListener) add(kind, ledgerName, key string, durable bool) {
+func (r *recListener) add(kind, ledgerName, key string, durable bool, call func(l *bus.LedgerListener)) {
+	topic, msg := r.through(call)
 	n := len(r.committedLogs(ledgerName))
 	open := false
 	if r.openTx != nil {
@@ -76,20 +122,20 @@ func (r *recListener) add(kind, ledgerName, key string, durable bool) {
 	}
 	r.mu.Lock()
 	defer r.mu.Unlock()
-	r.events = append(r.events, recEvent{Kind: kind, Ledger: ledgerName, Key: key, CommittedLogs: n, Durable: durable, OpenTx: open, Seq: r.sim.CommitSeq()})
+	r.events = append(r.events, recEvent{Kind: kind, Ledger: ledgerName, Key: key, CommittedLogs: n, Durable: durable, OpenTx: open, Seq: r.sim.CommitSeq(), Topic: topic, Message: msg})
 }
 
-func (r *recListener) CommittedTransactions(_ context.Context, l string, tx ledger.Transaction, _ ledger.AccountMetadata) {
+func (r *recListener) CommittedTransactions(ctx context.Context, l string, tx ledger.Transaction, am ledger.AccountMetadata) {
 	id := uint64(0)
 	if tx.ID != nil {
 		id = *tx.ID
 	}
-	r.add("NEW_TRANSACTION", l, fmt.Sprint(id), r.txCommitted(l, id, false))
+	r.add("NEW_TRANSACTION", l, fmt.Sprint(id), r.txCommitted(l, id, false), func(b *bus.LedgerListener) { b.CommittedTransactions(ctx, l, tx, am) })
 }
-func (r *recListener) SavedMetadata(_ context.Context, l string, targetType, id string, _ metadata.Metadata) {
-	r.add("SET_METADATA", l, targetType+":"+id, true)
+func (r *recListener) SavedMetadata(ctx context.Context, l string, targetType, id string, md metadata.Metadata) {
+	r.add("SET_METADATA", l, targetType+":"+id, true, func(b *bus.LedgerListener) { b.SavedMetadata(ctx, l, targetType, id, md) })
 }
-func (r *recListener) RevertedTransaction(_ context.Context, l string, reverted, revert ledger.Transaction) {
+func (r *recListener) RevertedTransaction(ctx context.Context, l string, reverted, revert ledger.Transaction) {
 	rid, oid := uint64(0), uint64(0)
 	if revert.ID != nil {
 		rid = *revert.ID
@@ -97,19 +143,19 @@ func (r *recListener) RevertedTransaction(_ context.Context, l string, reverted,
 	if reverted.ID != nil {
 		oid = *reverted.ID
 	}
-	r.add("REVERTED_TRANSACTION", l, fmt.Sprint(rid), r.txCommitted(l, rid, false) && r.txCommitted(l, oid, true))
+	r.add("REVERTED_TRANSACTION", l, fmt.Sprint(rid), r.txCommitted(l, rid, false) && r.txCommitted(l, oid, true), func(b *bus.LedgerListener) { b.RevertedTransaction(ctx, l, reverted, revert) })
 }
-func (r *recListener) DeletedMetadata(_ context.Context, l string, targetType string, targetID any, key string) {
-	r.add("DELETE_METADATA", l, fmt.Sprintf("%s:%v:%s", targetType, targetID, key), true)
+func (r *recListener) DeletedMetadata(ctx context.Context, l string, targetType string, targetID any, key string) {
+	r.add("DELETE_METADATA", l, fmt.Sprintf("%s:%v:%s", targetType, targetID, key), true, func(b *bus.LedgerListener) { b.DeletedMetadata(ctx, l, targetType, targetID, key) })
 }
-func (r *recListener) InsertedSchema(_ context.Context, l string, s ledger.Schema) {
+func (r *recListener) InsertedSchema(ctx context.Context, l string, s ledger.Schema) {
 	durable := false
 	for _, row := range r.sim.Rows(r.bucket[l], "schemas") {
 		if row["ledger"].S == l && row["version"].S == s.Version {
 			durable = true
 		}
 	}
-	r.add("INSERTED_SCHEMA", l, s.Version, durable)
+	r.add("INSERTED_SCHEMA", l, s.Version, durable, func(b *bus.LedgerListener) { b.InsertedSchema(ctx, l, s) })
 }
 
 func (r *recListener) count(ledgerName string) int {
@@ -215,6 +261,7 @@ type evOp struct {
 	Addr    string
 	Key     string
 	Meta    map[string]string
+	AccMeta map[string]map[string]string // create only: metadata set on accounts by the transaction
 	IK      string
 	DryRun  bool
 	Version string
@@ -230,6 +277,10 @@ func (o evOp) String() string {
 		s = "create[" + postingsStr(o.Post) + "]"
 		if o.Ref != "" {
 			s += " ref=" + o.Ref
+		}
+		if len(o.AccMeta) > 0 {
+			b, _ := json.Marshal(o.AccMeta)
+			s += " accountMetadata=" + string(b)
 		}
 	case "revert":
 		s = fmt.Sprintf("revert %d force=%v", o.TxID, o.Force)
@@ -261,6 +312,17 @@ func (o evOp) String() string {
 	return s
 }
 
+func (o evOp) accMeta() map[string]metadata.Metadata {
+	if len(o.AccMeta) == 0 {
+		return nil
+	}
+	out := map[string]metadata.Metadata{}
+	for a, m := range o.AccMeta {
+		out[a] = toMD(m)
+	}
+	return out
+}
+
 func toMD(m map[string]string) metadata.Metadata {
 	md := metadata.Metadata{}
 	for k, v := range m {
@@ -275,7 +337,7 @@ func (o evOp) run(ctx context.Context, c ledgercontroller.Controller) (log *ledg
 	case "create":
 		run := ledgercontroller.TxToScriptData(ledger.TransactionData{Postings: o.Post, Metadata: toMD(o.Meta), Reference: o.Ref}, o.Force)
 		log, _, hit, err = c.CreateTransaction(ctx, ledgercontroller.Parameters[ledgercontroller.CreateTransaction]{DryRun: o.DryRun, IdempotencyKey: o.IK,
-			Input: ledgercontroller.CreateTransaction{RunScript: run}})
+			Input: ledgercontroller.CreateTransaction{RunScript: run, AccountMetadata: o.accMeta()}})
 	case "revert":
 		md := toMD(o.Meta)
 		if o.NilMeta {
@@ -310,7 +372,7 @@ func (o evOp) element() (bulking.BulkElement, bool) {
 	switch o.Kind {
 	case "create":
 		return bulking.BulkElement{Action: bulking.ActionCreateTransaction, IdempotencyKey: o.IK,
-			Data: bulking.TransactionRequest{Postings: o.Post, Reference: o.Ref, Metadata: toMD(o.Meta), Force: o.Force}}, true
+			Data: bulking.TransactionRequest{Postings: o.Post, Reference: o.Ref, Metadata: toMD(o.Meta), AccountMetadata: o.accMeta(), Force: o.Force}}, true
 	case "revert":
 		return bulking.BulkElement{Action: bulking.ActionRevertTransaction, IdempotencyKey: o.IK,
 			Data: bulking.RevertTransactionRequest{ID: o.TxID, Force: o.Force, Metadata: metadata.Metadata{}}}, true
@@ -371,6 +433,9 @@ func genEvOp(t *rapid.T, sim *pgsim.DB, bucket, ledgerName string, allowSchema, 
 			o.Ref = rapid.SampledFrom(refPool).Draw(t, "ref")
 		}
 		o.Meta = genMeta(t, "txMeta")
+		if rapid.IntRange(0, 2).Draw(t, "withAccountMeta") == 0 {
+			o.AccMeta = map[string]map[string]string{rapid.SampledFrom(evAccounts).Draw(t, "metaAccount"): {rapid.SampledFrom(metaKeys).Draw(t, "accKey"): gen.FreeText().Draw(t, "accVal")}}
+		}
 	case "revert":
 		o.TxID = pickTx()
 		o.Force = rapid.Bool().Draw(t, "force")
@@ -400,7 +465,7 @@ func genEvOp(t *rapid.T, sim *pgsim.DB, bucket, ledgerName string, allowSchema, 
 
 // ---------------------------------------------------------------- C31
 
-const ruleC31 = "stateful histories on 1-2 ledgers of one deployment with a recording Listener: every write kind (create, revert, 4 metadata operations, insert schema; failing inputs, dry runs, idempotency keys) issued as a single request, inside an atomic bulk, or inside a non-atomic bulk (with/without continueOnFailure), on a fresh or a re-used controller chain (so first writes on an 'initializing' ledger occur in every mode), with a database failure injected at a drawn SQL statement (before or after its effect) or at a drawn COMMIT of the operation. Oracle, from the stand-in's committed tables only: (a) when an event arrives, the row it names and at least as many logs as events so far are committed and the emitting request holds no open SQL transaction; (b) after every operation the events received equal, one for one by type and target, the logs that became durable during it; non-trivial = history with >= 1 event-producing commit inside a bulk or first write, >= 1 injected fault that fired and >= 1 failed or dry-run write; distinct = by operation history"
+const ruleC31 = "stateful histories on 1-2 ledgers of one deployment with a recording Listener: every write kind (create, revert, 4 metadata operations, insert schema; failing inputs, dry runs, idempotency keys) issued as a single request, inside an atomic bulk, or inside a non-atomic bulk (with/without continueOnFailure), on a fresh or a re-used controller chain (so first writes on an 'initializing' ledger occur in every mode), with a database failure injected at a drawn SQL statement (before or after its effect) or at a drawn COMMIT of the operation. Oracle, from the stand-in's committed tables only: (a) when an event arrives, the row it names and at least as many logs as events so far are committed and the emitting request holds no open SQL transaction; (b) after every operation the events received equal, one for one by type and target, the logs that became durable during it; (c) every call is passed through the real bus.LedgerListener to a recording message publisher, and the message (topic, type, ledger, transaction id / postings / metadata / reference / timestamp, account metadata, target, key, schema) must describe the committed log it announces; non-trivial = history with >= 1 event-producing commit inside a bulk or first write, >= 1 injected fault that fired and >= 1 failed or dry-run write; distinct = by operation history"
 
 type c31Ledger struct {
 	name, bucket string
@@ -440,6 +505,125 @@ func logKeyOfRow(row map[string]pgsim.Value) (string, string) {
 		return "INSERTED_SCHEMA", num(s["version"])
 	}
 	return typ, ""
+}
+
+// ---- what the published message says, against the committed log it announces
+
+func jsonNum(v any) string {
+	switch x := v.(type) {
+	case json.Number:
+		return x.String()
+	case string:
+		return x
+	case nil:
+		return ""
+	}
+	return fmt.Sprint(v)
+}
+
+func sameInstant(a, b any) bool {
+	as, _ := a.(string)
+	bs, _ := b.(string)
+	ta, err1 := time.Parse(time.RFC3339Nano, as)
+	tb, err2 := time.Parse(time.RFC3339Nano, bs)
+	return err1 == nil && err2 == nil && ta.Equal(tb)
+}
+
+func evMeta(v any) map[string]any {
+	m, _ := v.(map[string]any)
+	if m == nil {
+		return map[string]any{}
+	}
+	return m
+}
+
+// sameTx compares what identifies and makes up a transaction: id, postings, metadata, reference, timestamp.
+func sameTx(ev, logged any) string {
+	e, _ := ev.(map[string]any)
+	l, _ := logged.(map[string]any)
+	if e == nil || l == nil {
+		return "transaction missing"
+	}
+	if jsonNum(e["id"]) != jsonNum(l["id"]) {
+		return fmt.Sprintf("id %s, committed %s", jsonNum(e["id"]), jsonNum(l["id"]))
+	}
+	if !reflect.DeepEqual(e["postings"], l["postings"]) {
+		return fmt.Sprintf("postings %v, committed %v", e["postings"], l["postings"])
+	}
+	if !reflect.DeepEqual(evMeta(e["metadata"]), evMeta(l["metadata"])) {
+		return fmt.Sprintf("metadata %v, committed %v", e["metadata"], l["metadata"])
+	}
+	if jsonNum(e["reference"]) != jsonNum(l["reference"]) {
+		return fmt.Sprintf("reference %q, committed %q", jsonNum(e["reference"]), jsonNum(l["reference"]))
+	}
+	if !sameInstant(e["timestamp"], l["timestamp"]) {
+		return fmt.Sprintf("timestamp %v, committed %v", e["timestamp"], l["timestamp"])
+	}
+	return ""
+}
+
+// eventDescribes compares the message the real bus listener published with the committed log row it announces.
+func eventDescribes(ev recEvent, row map[string]pgsim.Value, ledgerName string) string {
+	typ := row["type"].S
+	wantTopic := map[string]string{"NEW_TRANSACTION": events.EventTypeCommittedTransactions, "REVERTED_TRANSACTION": events.EventTypeRevertedTransaction,
+		"SET_METADATA": events.EventTypeSavedMetadata, "DELETE_METADATA": events.EventTypeDeletedMetadata, "INSERTED_SCHEMA": events.EventTypeInsertedSchema}[typ]
+	if ev.Message == nil {
+		return "nothing decodable was handed to the publisher: " + ev.Topic
+	}
+	if ev.Topic != wantTopic || jsonNum(ev.Message["type"]) != wantTopic {
+		return fmt.Sprintf("topic %q / type %q, want %q", ev.Topic, jsonNum(ev.Message["type"]), wantTopic)
+	}
+	p, _ := ev.Message["payload"].(map[string]any)
+	if p == nil {
+		return "the message has no payload"
+	}
+	if jsonNum(p["ledger"]) != ledgerName {
+		return fmt.Sprintf("ledger %q, want %q", jsonNum(p["ledger"]), ledgerName)
+	}
+	data, _ := row["data"].J.(map[string]any)
+	switch typ {
+	case "NEW_TRANSACTION":
+		txs, _ := p["transactions"].([]any)
+		if len(txs) != 1 {
+			return fmt.Sprintf("%d transactions in the message", len(txs))
+		}
+		if d := sameTx(txs[0], data["transaction"]); d != "" {
+			return "transaction: " + d
+		}
+		if !reflect.DeepEqual(evMeta(p["accountMetadata"]), evMeta(data["accountMetadata"])) {
+			return fmt.Sprintf("accountMetadata %v, committed %v", p["accountMetadata"], data["accountMetadata"])
+		}
+	case "REVERTED_TRANSACTION":
+		if d := sameTx(p["revertTransaction"], data["transaction"]); d != "" {
+			return "revert transaction: " + d
+		}
+		e, _ := p["revertedTransaction"].(map[string]any)
+		l, _ := data["revertedTransaction"].(map[string]any)
+		if e == nil || l == nil || jsonNum(e["id"]) != jsonNum(l["id"]) {
+			return fmt.Sprintf("reverted transaction %v, committed %v", e["id"], l["id"])
+		}
+		if rev, _ := e["reverted"].(bool); !rev {
+			return "the reverted transaction is not marked reverted in the message"
+		}
+	case "SET_METADATA":
+		if jsonNum(p["targetType"]) != jsonNum(data["targetType"]) || jsonNum(p["targetId"]) != jsonNum(data["targetId"]) {
+			return fmt.Sprintf("target %v:%v, committed %v:%v", p["targetType"], p["targetId"], data["targetType"], data["targetId"])
+		}
+		if !reflect.DeepEqual(evMeta(p["metadata"]), evMeta(data["metadata"])) {
+			return fmt.Sprintf("metadata %v, committed %v", p["metadata"], data["metadata"])
+		}
+	case "DELETE_METADATA":
+		if jsonNum(p["targetType"]) != jsonNum(data["targetType"]) || jsonNum(p["targetId"]) != jsonNum(data["targetId"]) || jsonNum(p["key"]) != jsonNum(data["key"]) {
+			return fmt.Sprintf("target %v:%v key %v, committed %v:%v key %v", p["targetType"], p["targetId"], p["key"], data["targetType"], data["targetId"], data["key"])
+		}
+	case "INSERTED_SCHEMA":
+		e, _ := p["schema"].(map[string]any)
+		l, _ := data["schema"].(map[string]any)
+		if e == nil || l == nil || jsonNum(e["version"]) != jsonNum(l["version"]) || !reflect.DeepEqual(e["chart"], l["chart"]) {
+			return fmt.Sprintf("schema %v, committed %v", e, l)
+		}
+	}
+	return ""
 }
 
 // evRun is one deployment with a recording listener on which event/bulk steps are executed.
@@ -570,6 +754,18 @@ func (r *evRun) exec(l *c31Ledger, mode string, ops []evOp, plan faultPlan) {
 	}
 	if !mapsEqual(want, got) {
 		w.V("C31", "events published do not match the writes that became durable\n  durable logs: %v\n  events:       %v\nhistory:\n  %s", want, got, history)
+	}
+	// (c) each message, as the real bus listener hands it to the publisher, describes the write it announces
+	for i, e := range newEvents {
+		typ, key := logKeyOfRow(newLogs[i])
+		if typ != e.Kind || key != e.Key {
+			w.St.Class("events-in-another-order-than-logs")
+			break
+		}
+		if d := eventDescribes(e, newLogs[i], l.name); d != "" {
+			w.V("C31", "the message published for %s %s on %s does not describe the committed write: %s\nhistory:\n  %s", e.Kind, e.Key, l.name, d, history)
+		}
+		w.St.Add("messages_compared_with_their_log", 1)
 	}
 	if len(newLogs) > 0 && (mode != "single" || wasInitializing) {
 		r.bulkCommits++
